@@ -74,11 +74,27 @@ func (h *hist) enqueue(client int, a *agent.Agent, id uint32) {
 	h.enq = append(h.enq, id)
 }
 
+// pivotJobID stands for the (one) task a scenario queues for a pivot agent: it reaches
+// the direct agent's queue wrapped in a COMMAND_PIVOT job, which carries no request id.
+const pivotJobID = 100
+
+// enqueueVia queues a task for a pivot agent; it is delivered through the direct agent's queue.
+func (h *hist) enqueueVia(client int, p *agent.Agent, id uint32) {
+	c := h.tick()
+	p.AddJobToQueue(agent.Job{Command: 0x77, RequestID: id, Data: []any{1}})
+	h.ops = append(h.ops, porcupine.Operation{ClientId: client, Input: qin{Enq: true, ID: id}, Call: c, Output: qout{}, Return: h.tick()})
+	h.enq = append(h.enq, id)
+}
+
 func (h *hist) dequeue(client int, a *agent.Agent) {
 	c := h.tick()
 	jobs := a.GetQueuedJobs()
 	var ids []uint32
 	for _, j := range jobs {
+		if j.Command == agent.COMMAND_PIVOT {
+			ids = append(ids, pivotJobID)
+			continue
+		}
 		ids = append(ids, j.RequestID)
 	}
 	h.ops = append(h.ops, porcupine.Operation{ClientId: client, Input: qin{}, Call: c, Output: qout{IDs: ids}, Return: h.tick()})
@@ -127,6 +143,22 @@ func scenarios() []scenario {
 			s.Spawn("operator", func() { h.enqueue(0, a, 1) })
 			s.Spawn("relay", func() { h.enqueue(1, a, 3) })
 			s.Spawn("listener", func() { h.dequeue(2, a) })
+		}},
+		{name: "pivot chain D<-P1<-P2: operator enq(D) | relay enq(P2, two hops behind D) | listener(2 check-ins of D)", build: func(s *vsched.Sched, h *hist, a *agent.Agent, _ *seam.TS) {
+			// every queue operation of the chain ends in D's queue: it must be guarded by D's lock
+			mk := func(name string, k byte, parent *agent.Agent) *agent.Agent {
+				p := &agent.Agent{NameID: name, Info: &agent.AgentInfo{}}
+				p.Encryption.AESKey, p.Encryption.AESIv = seam.Key(k), seam.IV(k)
+				p.Pivots.Parent = parent
+				parent.Pivots.Links = append(parent.Pivots.Links, p)
+				return p
+			}
+			a.Encryption.AESKey, a.Encryption.AESIv = seam.Key(1), seam.IV(1)
+			p1 := mk("0000d002", 2, a)
+			p2 := mk("0000d003", 3, p1)
+			s.Spawn("operator", func() { h.enqueue(0, a, 1) })
+			s.Spawn("relay", func() { h.enqueueVia(1, p2, pivotJobID) })
+			s.Spawn("listener", func() { h.dequeue(2, a); h.dequeue(2, a) })
 		}},
 		{name: "real entry points: operator DispatchEvent(2 tasks) | relay AddJobToQueue | listener 2 HTTP check-ins", viaTS: true, build: func(s *vsched.Sched, h *hist, a *agent.Agent, ts *seam.TS) {
 			s.Spawn("operator", func() { h.enqueueOp(0, ts, 1); h.enqueueOp(0, ts, 2) })
@@ -178,6 +210,10 @@ func runSchedules(r *ev.Run) {
 			s.Run()
 			var rest []uint32
 			for _, j := range a.JobQueue {
+				if j.Command == agent.COMMAND_PIVOT {
+					rest = append(rest, pivotJobID)
+					continue
+				}
 				rest = append(rest, j.RequestID)
 			}
 			obs := fmt.Sprintf("got=%v rest=%v", h.got, rest)
